@@ -36,7 +36,8 @@ RULE = ("library client <-> library server (Twisted and asyncio adapters, NVX an
         "chunking (incl. over-long and empty chunks, zero-length frames), frame API, prepared messages, sendFrame "
         "with write chopping / payload_len repetition; options: mask flags of both roles, applyMask, "
         "utf8validateIncoming, permessage-deflate (default / no context takeover / reduced windows / mem levels); "
-        "byte streams cut whole / bytewise / 1-4 octets / random / at every frame border +-1, the two directions "
+        "byte streams cut whole / bytewise / 1-4 octets / random / at every frame border +-1 / as bursts of 2-6 chunks "
+        "queued in front of the asyncio adapter's consumer, the two directions "
         "and the 10us queued-write timers interleaved by a seeded scheduler; first frames glued to the opening "
         "handshake (both directions); every single cut position (thorough: every pair) of short streams. "
         "A case is non-trivial when at least one message was compared on the wire AND at the receiver; distinct = "
@@ -50,6 +51,7 @@ ASSUMPTIONS = [
     "streaming API grey zones that are NOT asserted: (a) a zero-length frame is completed the way sendMessageFrame(b'') does it, by an empty sendMessageFrameData() - beginMessageFrame(0) immediately followed by another beginMessageFrame() raises 'invalid in current sending state', the docstring only says the frame ends 'when enough data has been sent'; (b) the sign of sendMessageFrameData's return value for an over-long chunk (docstring: 'amount of unconsumed data', code: negative) - both accepted; (c) pings are only delivered to a side that is not inside a half-written streamed frame (an automatic pong there is an inherent hazard of that API)",
     "whether a message is compressed at all is the sender's choice (RFC 7692): only 'RSV1 => inflates to what was sent' and 'RSV1 only with a negotiated extension' are asserted",
     "the early-data sub-scenario (frames in the same segment as the client's opening request) drives the server-side hand-over with a reference-built client stream; a conforming client never does this, the library documents 'process rest, if any'",
+    "segmentation policy 'tlsburst' (and the 'burst' variant of every cut position on asyncio): k = 2..6 chunks reach the asyncio adapter by back-to-back data_received() calls inside ONE read event, the loop runs only afterwards (vf.world.AioEndpoint.feed_burst). The asyncio.Protocol contract permits that (a transport may hand over one chunk per decrypted record / buffer; the adapter's receive queue exists for it) although CPython >= 3.11's own selector and ssl transports make one call per read event; on Twisted, where dataReceived() is synchronous, the same chunks are k ordinary read events",
     "per direction only the EARLIEST sender problem is reported (everything after a broken frame is misread); after a sender-side fault the peer's reaction to the malformed stream is not judged here (C02's subject) and a stream that merely STOPS (trailing octets, unfinished / missing message) on a connection the peer has failed is a consequence, not a second finding",
     "the four API/option mixes of the former findings S-01a..d (streaming API under PMCE, prepared messages with applyMask=False, sendFrame with an explicit mask key, beginMessage/endMessage without a frame) are drawn at their natural share of the API mix in every shard and judged like everything else",
 ]
@@ -62,7 +64,7 @@ DECIDING = {
     "api_frames": 1, "api_prepared": 1, "api_sendframe": 1, "stream_returns_checked": 1,
     "glue_cases": 1, "cut_positions": 1, "early_data_cases": 1, "pings_compared": 1,
     "mix_stream_under_pmce": 50, "mix_prepared_applymask_off": 20, "mix_sendframe_explicit_mask": 50,
-    "mix_begin_end_without_frame": 20,
+    "mix_begin_end_without_frame": 20, "aio_bursts_delivered": 200,
 }
 
 BORDER_LENGTHS = [0, 1, 2, 3, 124, 125, 126, 127, 128, 129, 65534, 65535, 65536, 65537, 131071, 131072, 131073]
@@ -79,7 +81,7 @@ MASK_VARIANTS = {
     "applyoff":   (True, True, False, False, False),
     "applyoff-srvmask": (True, True, True, True, False),
 }
-SEG_POLICIES = ["whole", "bytewise", "small", "random", "edges", "bursty"]
+SEG_POLICIES = ["whole", "bytewise", "small", "random", "edges", "bursty", "tlsburst"]
 
 
 # ================================================================================================
@@ -787,6 +789,45 @@ class CaseRun:
         raise RuntimeError("timers do not drain")
 
     # -- driving -------------------------------------------------------------------------------
+    def _deliver_burst(self, src_ep, sizes):
+        """``sizes`` consecutive chunks of what ``src_ep`` wrote reach the peer's protocol back to back in ONE read
+        event (asyncio: k data_received() calls, the loop runs afterwards - AioEndpoint.feed_burst); on Twisted
+        dataReceived() is synchronous, so the same chunks are simply k read events."""
+        link = self.link
+        link.collect()
+        buf = link.inflight[id(src_ep)]
+        chunks = []
+        for n in sizes:
+            if not buf:
+                break
+            n = max(1, min(n, len(buf)))
+            chunks.append(bytes(buf[:n]))
+            del buf[:n]
+        if not chunks:
+            return 0
+        dst = link.peer_of(src_ep)
+        fb = getattr(dst, "feed_burst", None)
+        if fb is not None and len(chunks) > 1:
+            handed = fb(chunks)
+            if handed > 1:
+                self.R.count("aio_bursts_delivered")
+                self.R.count("aio_burst_chunks", handed)
+        else:
+            for ch in chunks:
+                dst.feed(ch)
+        moved = sum(len(c) for c in chunks)
+        link.delivered[id(src_ep)] += moved
+        link.collect()
+        return moved
+
+    def _deliver_next(self, side):
+        avail = self.link.pending(side.ep)
+        if not avail:
+            return 0
+        if side.seg.policy == "tlsburst":
+            return self._deliver_burst(side.ep, side.seg.next_burst(avail))
+        return self.link.deliver(side.ep, side.seg.next_n(avail))
+
     def _deliver_some(self, side):
         link = self.link
         peer = self.server if side is self.client else self.client
@@ -795,8 +836,7 @@ class CaseRun:
             return 0
         if peer.in_frame and self.cfg["pings"]:
             return 0       # see ASSUMPTIONS: no control frames into a half-streamed frame
-        n = side.seg.next_n(avail)
-        return link.deliver(side.ep, n)
+        return self._deliver_next(side)
 
     def drive(self):
         world = self.ws.world
@@ -854,8 +894,7 @@ class CaseRun:
                     break
                 continue
             sd = rs.choice(pend)
-            n = sd.seg.next_n(self.link.pending(sd.ep))
-            self.link.deliver(sd.ep, n)
+            self._deliver_next(sd)
         else:
             raise RuntimeError("drain does not terminate")
 
@@ -875,12 +914,18 @@ class CaseRun:
             order.reverse()
         for sd in order:
             if cut and cut[0] == sd.direction:
-                pos = 0
+                pos, sizes = 0, []
                 for c in cut[1:]:
                     if c > pos:
-                        link.deliver(sd.ep, c - pos)
+                        sizes.append(c - pos)
                         pos = c
-                link.deliver(sd.ep, None)
+                if self.case.get("burst"):
+                    # the pieces (and the rest) arrive back to back inside one read event
+                    self._deliver_burst(sd.ep, sizes + [1 << 30])
+                else:
+                    for n in sizes:
+                        link.deliver(sd.ep, n)
+                    link.deliver(sd.ep, None)
                 self.R.count("cut_positions", len(cut) - 1)
             else:
                 link.deliver(sd.ep, None)
@@ -1028,8 +1073,10 @@ class CaseRun:
         if tail:
             rec = rec_of_msg(len(msgs)) or (sent[-1] if sent else None)
             sc = cw.scan_frame(tail, 0)
-            if rec is not None and rec["xmask"] and tail[1:2] and tail[1] & 0x80 and (
-                    sc is None or sc[2][4] not in [xmask_key(j) for j in range(8)]):
+            # judged only on a COMPLETE header: a header cut short (chopped write on a connection the peer has
+            # failed meanwhile) says nothing about the key
+            if rec is not None and rec["xmask"] and sc is not None and sc[2][3] and (
+                    sc[2][4] not in [xmask_key(j) for j in range(8)]):
                 cand(nfr, "sender/explicit-mask-key", rec, "last frame has the mask bit but the key sendFrame() was given "
                      "is not on the wire: %s" % tail[:16].hex())
             cand(nfr, "sender/trailing-octets", rec,
@@ -1248,7 +1295,7 @@ class CaseRun:
         if n_cmp and not any(self.sender_fault.values()):
             plan = [[(r["api"], _len_class(r["len"]), r["binary"]) for r in sd.sent] for sd in self.sides]
             R.seen("nontrivial", h([self.kind, cfg_sum, plan, [sd.seg.policy for sd in self.sides], self.case.get("cut"),
-                                    self.case.get("glue")]))
+                                    self.case.get("glue"), self.case.get("burst")]))
             R.sample({"case": self.case, "cfg": cfg_sum, "plan": self.plan_summary(),
                       "seg": {sd.direction: sd.seg.policy for sd in self.sides},
                       "octets": {sd.direction: len(sd.ep.all_out) for sd in self.sides}}, kind=self.kind, every=37)
@@ -1409,11 +1456,15 @@ def run_shard(params, R):
                 continue
             for c in range(1, L):
                 run_case({"kind": "cuts", "seed": cs, "tier": tier, "cut": [d, c]}, R)
+                if fw == "aio":     # the same cut as two chunks queued in front of the adapter's consumer
+                    run_case({"kind": "cuts", "seed": cs, "tier": tier, "cut": [d, c], "burst": True}, R)
             R.count("streams_cut_exhaustively")
             if thorough and i < 6:
                 for c1 in range(1, L):
                     for c2 in range(c1 + 1, L):
                         run_case({"kind": "cuts", "seed": cs, "tier": tier, "cut": [d, c1, c2]}, R)
+                        if fw == "aio" and i < 3:
+                            run_case({"kind": "cuts", "seed": cs, "tier": tier, "cut": [d, c1, c2], "burst": True}, R)
                 R.count("streams_cut_pairs_exhaustively")
     phase["cuts"] = round(time.time() - t1, 1)
     # 5. random cases
